@@ -39,6 +39,7 @@ import (
 	"strconv"
 	"strings"
 	"sync"
+	"syscall"
 	"time"
 )
 
@@ -127,6 +128,7 @@ type Cluster struct {
 	parkSkip   int // CLUSTER SLOTS requests still to be served before parking starts
 	parked     chan struct{}
 	down       map[int]bool // nodes taken down
+	reserve    map[int]int  // node -> fd of a bound, NOT listening socket that keeps a downed node's port (dials are refused, nobody else gets the port)
 	arrivals   map[int]int  // command id -> how many times a node processed it (any outcome)
 	connOf     map[net.Conn]int
 	fault      string                // injected fault for the next plain data request: er | cb | ac
@@ -217,6 +219,11 @@ func (d *Cluster) Close() {
 	for _, ln := range d.lns {
 		ln.Close()
 	}
+	d.mu.Lock()
+	for n := range d.reserve {
+		d.releasePortLocked(n)
+	}
+	d.mu.Unlock()
 	d.wg.Wait()
 }
 
@@ -299,6 +306,7 @@ func (d *Cluster) applyLocked(ev MigEv) bool {
 		if ev.Dst < 0 || ev.Dst >= d.n || !d.down[ev.Dst] {
 			return false
 		}
+		d.releasePortLocked(ev.Dst)
 		ln, err := net.Listen("tcp", d.addrs[ev.Dst])
 		if err != nil {
 			return false
@@ -313,6 +321,7 @@ func (d *Cluster) applyLocked(ev MigEv) bool {
 		}
 		d.down[ev.Dst] = true
 		d.lns[ev.Dst].Close()
+		d.reservePortLocked(ev.Dst)
 		for c, n := range d.connOf {
 			if n == ev.Dst && c != d.parkedConn {
 				c.Close()
@@ -969,5 +978,42 @@ func (d *Cluster) holdIfStalled(node int, args []string) {
 		d.mu.Lock()
 		d.held--
 		d.mu.Unlock()
+	}
+}
+
+// reservePortLocked keeps the address of a downed node out of everybody's hands: a socket
+// bound to it but never listening. A dial is refused (what "node unreachable" means for the
+// client) and no other process - other harnesses run concurrently on this host - can be handed
+// the port by the kernel and answer in the node's place.
+func (d *Cluster) reservePortLocked(n int) {
+	if d.reserve == nil {
+		d.reserve = map[int]int{}
+	}
+	host, portS, err := net.SplitHostPort(d.addrs[n])
+	if err != nil {
+		return
+	}
+	port, _ := strconv.Atoi(portS)
+	ip := net.ParseIP(host).To4()
+	if ip == nil {
+		return
+	}
+	fd, err := syscall.Socket(syscall.AF_INET, syscall.SOCK_STREAM, 0)
+	if err != nil {
+		return
+	}
+	sa := &syscall.SockaddrInet4{Port: port}
+	copy(sa.Addr[:], ip)
+	if err := syscall.Bind(fd, sa); err != nil {
+		syscall.Close(fd)
+		return
+	}
+	d.reserve[n] = fd
+}
+
+func (d *Cluster) releasePortLocked(n int) {
+	if fd, ok := d.reserve[n]; ok {
+		syscall.Close(fd)
+		delete(d.reserve, n)
 	}
 }
